@@ -18,7 +18,7 @@ CONSTANTS MVals,       \* measure values (halves) an update may write, NoM inclu
           Legacy       \* self-test: remove does not reach the index
 
 VARIABLES hist, nupd, nedge
-vars == <<cover, meas, ixs, ixc, ixm, ixn, hist, nupd, nedge>>
+vars == <<cover, meas, mlab, ixs, ixc, ixm, ixn, hist, nupd, nedge>>
 
 \* initial measure assignments a .cfg cannot spell (halves; NoM = no measure)
 Inits2 == {<<2, 6>>}
@@ -55,7 +55,7 @@ Next ==
     \/ /\ ixs # "none" /\ nupd < MaxUpd
        /\ \E n \in Nodes, v \in MVals :
             /\ IF Legacy /\ v = NoM /\ ixs = "fresh"
-               THEN KF_C28_RemoveNotPropagated(n)
+               THEN LegacyRemoveNotPropagated(n)
                ELSE UpdateMeasure(n, v, n \in ixn)
             /\ H([op |-> "UpdateMeasure", node |-> n, v |-> v])
        /\ nupd' = nupd + 1 /\ UNCHANGED nedge
@@ -78,7 +78,7 @@ AnswersMatchGraph ==
               /\ \A x, y \in ixn : IxSub(x, y) = Sub(cl, x, y)
               /\ \A y \in ixn : IxDesc(y) = Desc(cl, y)
               /\ \A x, y \in ixn : IxLCA(x, y) = LCA(cl, x, y)
-              /\ \A y \in ixn, op \in Ops : IxRollup(y, op) = Rollup(cl, meas, y, op)
+              /\ \A y \in ixn, op \in Ops : IxRollup(y, op) = Rollup(cl, Eff(meas, mlab), y, op)
 
 \* no VIEW: every operation sequence is emitted (the recipe keeps the maximal ones: a script's
 \* prefixes are replayed anyway)
